@@ -1,6 +1,6 @@
 (* C03 — the frame decoder is total and strict, reports errors with a fixed precedence, and
    agrees with the independent declarative description of the wire language. *)
-From Flipdot Require Import Tactics Base Hex Frame WireSpec FrameP.
+From Flipdot Require Import Tactics Base Hex Frame WireSpec FrameP FrameClassP.
 Local Open Scope N_scope.
 
 (* ":02000201031FD9" *)
@@ -98,3 +98,26 @@ Theorem C03_reencode :
   /\ (s = 58 :: strip_crlf (tl s) \/ s = 58 :: strip_crlf (tl s) ++ [13; 10]).
 Proof. exact FrameP.C03_reencode. Qed.
 Print Assumptions C03_reencode.
+
+(* Every byte string falls in exactly the documented classes: accepted, malformed text, length
+   mismatch, bad checksum (nothing else is ever returned). *)
+Theorem C03_classes :
+  forall s,
+  (exists f, decode s = Ok f) \/ decode s = Err InvalidFrame
+  \/ (exists e a, decode s = Err (DataMismatch e a))
+  \/ (exists e a, decode s = Err (BadChecksum e a)).
+Proof. exact FrameClassP.decode_classes. Qed.
+Print Assumptions C03_classes.
+
+(* Precedence as a function of the byte values the text spells: the length field decides
+   first, the checksum second, and when both are right the string is accepted. *)
+Theorem C03_precedence :
+  forall s bs,
+  WellFormedText s bs ->
+  (hd 0 bs <> nlen bs - 5 -> decode s = Err (DataMismatch (hd 0 bs) (nlen bs - 5)))
+  /\ (hd 0 bs = nlen bs - 5 -> last bs 0 <> checksum (removelast bs) ->
+      decode s = Err (BadChecksum (last bs 0) (checksum (removelast bs))))
+  /\ (hd 0 bs = nlen bs - 5 -> last bs 0 = checksum (removelast bs) ->
+      exists f, decode s = Ok f).
+Proof. exact FrameClassP.decode_precedence. Qed.
+Print Assumptions C03_precedence.
